@@ -211,10 +211,14 @@ func main() {
 			break
 		}
 		seed := *seed0 + uint64(i)**stride
-		// three scenarios in four start cold; every fourth inherits the state the
-		// previous ones left in the process (a violation that needs it is replayed
-		// as a seed sequence)
-		coldStart = seed%4 != 0
+		// In every block of 64 consecutive seeds the first 33 scenarios start cold
+		// (package-level state of the library as after initialisation: first-use
+		// windows of lazily built tables open again), the other 31 inherit whatever
+		// the scenarios before them left in the process (caches fill up over a
+		// stretch of 32 scenarios: entries computed for one call are met by later,
+		// different calls). A violation that needs the inherited state is replayed
+		// as a seed sequence.
+		coldStart = seed%64 <= 32
 		resetLibrary()
 		sc, o := wd.gen(seed, *tier)
 		if o == nil || (o.Violation == nil && o.Infra == "") {
